@@ -5,7 +5,6 @@ package c11
 // not counted.
 
 import (
-	"encoding/binary"
 	"fmt"
 	"testing"
 	"time"
